@@ -536,3 +536,32 @@ unit("fixed_base.append_fixed_base_signed_digits", FB, "Composer::append_fixed_b
      [SELF, ("jubjub", sym("jubjub")), ("generator", sym("generator")), ("signed_digits", sym("signed_digits"))],
      c_fixed_base_digits, consts=dict(CONSTS, FIXED_BASE_SIGNED_DIGIT_ROUNDS=256, FIXED_BASE_LEADING_ZERO_ROUNDS=3),
      trace_only=True, tracked=("self",))
+
+
+# ------------------------------------------------------------------ component_decomposition::<N> (instances)
+CONTRACTS["BlsScalar::pow_of_2"] = lambda it, recv, a: VOpaque("pow_of_2", [a[0]])
+CONTRACTS["assert"] = lambda it, recv, a: UNIT
+
+
+def c_component_decomposition(n):
+    def f(it, recv, a):
+        """N boolean witnesses (the little-endian bits of the scalar), running sum acc_{i+1} = 2^i * bit_i + acc_i starting at 0,
+        closing equality acc_N == scalar; returns the bit witnesses in little-endian order."""
+        scalar = a[0]
+        bits = VOpaque("to_bits", [val(scalar)])
+        acc = ZERO
+        out = []
+        for i in range(n):
+            wb = c_append_witness(it, None, [VOpaque("BlsScalar::from", [VOpaque("idx", [Sym(bits.canon()), i])])])
+            ev(it, "component_boolean", wb)
+            acc = c_gate("gate_add")(it, None, [cons({"q_l": VOpaque("pow_of_2", [i]), "q_r": 1, "a": wb, "b": acc})])
+            out.append(wb)
+        ev(it, "assert_equal", acc, scalar)
+        return VArr(out, "array")
+    return f
+
+
+BITS = "src/composer/bits.rs"
+for n in (1, 2, 8, 252, 256):
+    unit(f"bits.component_decomposition[{n}]", BITS, "Composer::component_decomposition", [SELF, ("scalar", sym("scalar"))],
+         c_component_decomposition(n), consts=dict(CONSTS, N=n))
